@@ -18,12 +18,13 @@ var c05Prefix = []string{"nothing", "other-call", "string-with-old-name", "block
 func c05Site(name string) *jg.Site { return &jg.Site{Kind: "call", Name: name} }
 
 // c05CallStmt builds one statement containing a call of `recv.old()` preceded on its line by `prefix`.
-func c05CallStmt(recv, old, prefix string) jg.Stmt {
+func c05CallStmt(recv, old, prefix string, gap ...string) jg.Stmt {
+	paren := strings.Join(gap, "") + "()"
 	call := func() []jg.Frag {
 		if recv == "" {
-			return []jg.Frag{jg.S(c05Site(old)), jg.T("()")}
+			return []jg.Frag{jg.S(c05Site(old)), jg.T(paren)}
 		}
-		return []jg.Frag{jg.T(recv + "."), jg.S(c05Site(old)), jg.T("()")}
+		return []jg.Frag{jg.T(recv + "."), jg.S(c05Site(old)), jg.T(paren)}
 	}
 	var fr []jg.Frag
 	switch prefix {
@@ -48,6 +49,12 @@ func c05Gen(c *engine.C) engine.Case {
 	layout, _ := pickLayout(c)
 	oldName := []string{"process", "p", "processTheWholeOrderAndShipItNow"}[c.Choose(3, "old-name")]
 	newName := []string{"handle", "processItem", "h", "handleTheWholeOrderAndShipItNowPlease", "proceed"}[c.Choose(5, "new-name")]
+	// text between a method name and its opening parenthesis, at declarations and at call sites
+	gap := []string{"", " ", " /* first */ "}[c.Choose(3, "between-name-and-parenthesis")]
+	if gap != "" {
+		c.Tag("gap-before-parenthesis")
+	}
+	layout.BeforeParen = gap
 	iface := c.Bool("declaration-in-interface")
 	if iface {
 		c.Tag("interface-declaration")
@@ -64,10 +71,10 @@ func c05Gen(c *engine.C) engine.Case {
 		switch engine.PickTag(c, "own-call", "none", "implicit", "this") {
 		case "implicit":
 			target.Members = append(target.Members, jg.Member{Method: &jg.Method{Mods: []string{"public"}, Ret: "void", Name: "again",
-				Body: []jg.Stmt{c05CallStmt("", oldName, c05Prefix[c.Choose(len(c05Prefix), "own-prefix")])}}})
+				Body: []jg.Stmt{c05CallStmt("", oldName, c05Prefix[c.Choose(len(c05Prefix), "own-prefix")], gap)}}})
 		case "this":
 			target.Members = append(target.Members, jg.Member{Method: &jg.Method{Mods: []string{"public"}, Ret: "void", Name: "again",
-				Body: []jg.Stmt{c05CallStmt("this", oldName, c05Prefix[c.Choose(len(c05Prefix), "own-prefix")])}}})
+				Body: []jg.Stmt{c05CallStmt("this", oldName, c05Prefix[c.Choose(len(c05Prefix), "own-prefix")], gap)}}})
 		}
 		if c.Bool("overloaded-declaration") {
 			target.Members = append(target.Members, jg.Member{Method: &jg.Method{Mods: []string{"public"}, Ret: "void", Name: oldName, Params: []jg.Param{{Type: "int", Name: "k"}}, Body: []jg.Stmt{jg.St(jg.T("int u = k;"))}}})
@@ -83,7 +90,7 @@ func c05Gen(c *engine.C) engine.Case {
 			m.Body = append(m.Body, jg.St(jg.T(fmt.Sprintf("Target lt%d = null;", i))))
 			recv = fmt.Sprintf("lt%d", i)
 		}
-		m.Body = append(m.Body, c05CallStmt(recv, oldName, c05Prefix[c.Choose(len(c05Prefix), fmt.Sprintf("site%d-prefix", i))]))
+		m.Body = append(m.Body, c05CallStmt(recv, oldName, c05Prefix[c.Choose(len(c05Prefix), fmt.Sprintf("site%d-prefix", i))], gap))
 	}
 	caller.Members = append(caller.Members, jg.Member{Method: m},
 		jg.Member{Method: &jg.Method{Mods: []string{"private"}, Ret: "void", Name: "prepare", Body: []jg.Stmt{jg.St(jg.T("int z = 0;"))}}})
@@ -91,7 +98,7 @@ func c05Gen(c *engine.C) engine.Case {
 	unrelated := &jg.Class{Pkg: "other", Name: "Unrelated", Kind: "class", Mods: []string{"public"}}
 	unrelated.Members = append(unrelated.Members,
 		jg.Member{Method: &jg.Method{Mods: []string{"public"}, Ret: "void", Name: oldName, Body: []jg.Stmt{jg.St(jg.T("int q = 3;"))}}},
-		jg.Member{Method: &jg.Method{Mods: []string{"public"}, Ret: "void", Name: "use", Body: []jg.Stmt{c05CallStmt("", oldName, "nothing")}}})
+		jg.Member{Method: &jg.Method{Mods: []string{"public"}, Ret: "void", Name: "use", Body: []jg.Stmt{c05CallStmt("", oldName, "nothing", gap)}}})
 	classes := []*jg.Class{target, caller, unrelated}
 	paths := []string{"app/Target.java", "app/Caller.java", "other/Unrelated.java"}
 	var files []FileSpec
